@@ -45,10 +45,10 @@ INIT_RES = {'repo': 0x1234, 'dev': 0x4321}
 class SdrDevice:
     """Python twin of Model.SdrIO.sdr_dev (checked against it on every recorded exchange)."""
 
-    def __init__(self, repo, dev, limit, plan, valid=False):
+    def __init__(self, repo, dev, limit, plan, valid=False, res0=None):
         self.recs = {'repo': [bytes(r) for r in repo], 'dev': [bytes(r) for r in dev]}
         self.limit = limit
-        self.res = dict(INIT_RES)
+        self.res = dict(res0 or INIT_RES)
         self.valid = {'repo': valid, 'dev': valid}
         self.plan = list(plan)
         self.init = self.coq_state()
@@ -145,16 +145,24 @@ def c_err(name):
     return C.c_err(name)
 
 
-def run_op(scn):
-    """scn: repo, dev (lists of hex), limit, plan, op, store, rid, resv ('none'|'valid'|'stale')"""
+def run_op(scn, conn=None):
+    """scn: repo, dev (lists of hex), limit, plan, op, store, rid, resv ('none'|'valid'|'stale'),
+    optional res0 = initial reservation counters of the device.  conn = (ipmi, itf) of an
+    EXISTING connection to run the operation on (history stage); default: a new Ipmi object."""
     dev = SdrDevice([bytes.fromhex(x) for x in scn['repo']], [bytes.fromhex(x) for x in scn['dev']],
-                    scn['limit'], [tuple(f) for f in scn['plan']], valid=(scn.get('resv') == 'valid'))
-    ipmi, itf = fakeif.connect(dev.handler)
+                    scn['limit'], [tuple(f) for f in scn['plan']], valid=(scn.get('resv') == 'valid'),
+                    res0=scn.get('res0'))
+    if conn is None:
+        ipmi, itf = fakeif.connect(dev.handler)
+    else:
+        ipmi, itf = conn
+        itf.handler = dev.handler
+        itf.log = []
     store = scn['store']
     sleeps = []
     resv = None
     if scn.get('resv') == 'valid':
-        resv = INIT_RES[store]
+        resv = dev.res[store]
     elif scn.get('resv') == 'stale':
         resv = 0x0999
 
@@ -170,7 +178,28 @@ def run_op(scn):
             out = ('ok', go())
         except Exception as e:  # noqa
             out = ('err', exc_name(e))
-    return dev, itf.log, sleeps, out, resv
+    OPLOG.append(dict(scn, conn=scn.get('conn', 'new')))
+    return dev, list(itf.log), sleeps, out, resv
+
+
+OPLOG = []          # every operation executed in this process, in order (for history replays)
+
+
+def run_history(steps):
+    """steps: scenarios with an extra 'conn' index; operations run in order in THIS process, on the
+    Ipmi object of their conn index (created at first use), each against its own fresh device."""
+    conns = {}
+    obs = []
+    for st in steps:
+        c = st.get('conn', 0)
+        if c == 'new':
+            conn = None
+        else:
+            if c not in conns:
+                conns[c] = fakeif.connect(lambda *a: bytes([0xC1]))
+            conn = conns[c]
+        obs.append(run_op(st, conn))
+    return obs
 
 
 def c_rec(r):
@@ -250,15 +279,75 @@ def oracle(scn, dev, log, out):
     return None
 
 
-def judge(scn):
-    dev, log, sleeps, out, resv = run_op(scn)
-    return dev, log, sleeps, out, resv, oracle(scn, dev, log, out)
+def oracle_resv(scn, log, resv):
+    """every Get request carries the reservation it has to: the one just obtained when the previous
+    exchange was a successful Reserve; the same as the previous request when that one is repeated
+    (0xC3 / 0xCE / raised node-busy); otherwise (first request of a chunk) the reservation the operation holds - supplied by the
+    caller or obtained at its start.  Never a value remembered from an earlier operation."""
+    store = scn['store']
+    held = resv
+    prev = None           # (kind, ...) of the previous exchange
+    for i, x in enumerate(log):
+        if x.netfn != NETFN[store]:
+            continue
+        ok_reply = isinstance(x.reply, (bytes, bytearray)) and len(x.reply) == 3 and x.reply[0] == 0
+        if x.cmd == 0x22:
+            if ok_reply:
+                rid = x.reply[1] | x.reply[2] << 8
+                if held is None:
+                    held = rid
+                prev = ('reserve', rid)
+            else:
+                prev = ('reserve-failed',)
+            continue
+        if x.cmd != GETCMD[store] or len(x.data) != 6:
+            continue
+        got = x.data[0] | x.data[1] << 8
+        chunk = bytes(x.data[2:6])
+        if prev and prev[0] == 'reserve':
+            want = prev[1]
+        elif prev and prev[0] == 'get' and prev[2] == chunk and prev[3]:
+            want = prev[1]
+        else:
+            want = held
+        if want is not None and got != want:
+            return ('sdr-read:stale-reservation',
+                    'request %d (offset %d) carries reservation 0x%04x, the most recently obtained / held one is 0x%04x'
+                    % (i, x.data[4], got, want))
+        again = (not isinstance(x.reply, (bytes, bytearray))) or bytes(x.reply) in (b'\xc3', b'\xce')
+        prev = ('get', got, chunk, again)       # again: the helper / send_message repeats this very request
+    if len(log) > 483 * max(1, len(scn[store])) + 3:
+        return 'sdr-read:request-bound-exceeded', '%d requests' % len(log)
+    return None
+
+
+def judge(scn, conn=None):
+    dev, log, sleeps, out, resv = run_op(scn, conn)
+    verdict = oracle(scn, dev, log, out) or oracle_resv(scn, log, resv)
+    return dev, log, sleeps, out, resv, verdict
+
+
+def oracle_history(inp):
+    """several operations in one process (same / later created Ipmi objects, fresh devices whose
+    reservation counters restart): every step must satisfy the single-operation oracle.
+    returns (step, key, message) or None"""
+    steps = inp['calls']
+    for k, (st, ob) in enumerate(zip(steps, run_history(steps))):
+        dev, log, sleeps, out, resv = ob
+        v = oracle(st, dev, log, out) or oracle_resv(st, log, resv)
+        if v:
+            return k, v[0], 'step %d of %d (%s %s on connection %s): %s' % (k + 1, len(steps), st['op'], st['store'],
+                                                                          st.get('conn', 0), v[1])
+    return None
 
 
 def replay(data):
-    if 'input' not in data.get('replay', {}):
+    r = data.get('replay', {})
+    if 'input' not in r:
         return False
-    return judge(data['replay']['input'])[5] is None
+    if r.get('oracle') == 'history':
+        return oracle_history(r['input']) is None
+    return judge(r['input'])[5] is None
 
 
 # ----------------------------------------------------------------------------
@@ -289,19 +378,52 @@ def run(ctx):
     terms, meta = [], []
     fails = {}
 
-    def case(scn, kind):
-        dev, log, sleeps, out, resv, verdict = judge(scn)
+    def emit(scn, kind, dev, log, sleeps, out, resv):
         terms.append(term(scn, dev, log, sleeps, out, resv))
         meta.append({'kind': kind, 'store': scn['store'], 'op': scn['op'], 'limit': scn['limit'], 'plan': scn['plan'],
                      'requests': len(log), 'out': out[0] if out[0] == 'ok' else out[1]})
-        nontrivial = len(log) > 3
-        D.add((scn['op'], scn['store'], scn.get('rid'), scn['limit'], tuple(map(tuple, scn['plan'])), tuple(scn[scn['store']])),
-              nontrivial, kind)
+        D.add((scn['op'], scn['store'], scn.get('rid'), scn['limit'], tuple(map(tuple, scn['plan'])), tuple(scn[scn['store']]),
+               kind if kind.startswith('history') else None), len(log) > 3, kind)
+
+    def case(scn, kind):
+        n_before = len(OPLOG)
+        dev, log, sleeps, out, resv, verdict = judge(scn)
+        emit(scn, kind, dev, log, sleeps, out, resv)
         if verdict and verdict[0] not in fails:
-            fails[verdict[0]] = C.Violation(key=verdict[0], what=verdict[1],
-                                            replay={'oracle': 'sdr', 'input': scn, 'observed_outcome': list(out),
-                                                    'exchanges': [x.canon() for x in log][:80]})
+            rp = {'oracle': 'sdr', 'input': scn, 'observed_outcome': list(out), 'exchanges': [x.canon() for x in log][:80]}
+            if C.holds_in_fresh_process('C11', {'oracle': 'sdr', 'input': scn}):
+                # holds from a clean start: the failure depends on what this process did before.
+                # Rebuild it as a history: the earlier operations of the same kind, then this one.
+                prior = [o for o in OPLOG[:n_before] if o['op'] == scn['op'] and o['store'] == scn['store']][-40:]
+                seq = C.shrink_history('C11', 'history', prior + [dict(scn, conn='new')])
+                if seq:
+                    fails[verdict[0]] = C.Violation(key=verdict[0], what=verdict[1] + ' [only after %d earlier operation(s) in the same process]' % (len(seq) - 1),
+                                                    replay={'oracle': 'history', 'input': {'calls': seq}})
+                else:
+                    fails[verdict[0]] = C.Violation(key=verdict[0], what=verdict[1] + ' [observed in this run; not reproduced from a clean start]',
+                                                    replay=rp, found_input=False)
+            else:
+                fails[verdict[0]] = C.Violation(key=verdict[0], what=verdict[1], replay=rp)
         return len(log), out
+
+    def history(steps, kind):
+        """operations in a row in this process; every step compared with the stateless model and judged"""
+        first = None
+        for k, (st, ob) in enumerate(zip(steps, run_history(steps))):
+            dev, log, sleeps, out, resv = ob
+            emit(st, kind, dev, log, sleeps, out, resv)
+            v = oracle(st, dev, log, out) or oracle_resv(st, log, resv)
+            if v and first is None:
+                first = (k, v)
+        if first and first[1][0] not in fails:
+            k, v = first
+            seq = C.shrink_history('C11', 'history', steps[:k + 1]) or None
+            if seq:
+                fails[v[0]] = C.Violation(key=v[0], what='%s [history of %d operation(s), step %d]' % (v[1], len(seq), k + 1),
+                                          replay={'oracle': 'history', 'input': {'calls': seq}})
+            else:
+                fails[v[0]] = C.Violation(key=v[0], what=v[1] + ' [history not reproduced from a clean start]',
+                                          replay={'oracle': 'history', 'input': {'calls': steps[:k + 1]}}, found_input=False)
 
     def scenario(store, lengths, limit, plan, op='get', pos=None, resv='none'):
         mine = mk_store(rng, lengths)
@@ -315,6 +437,54 @@ def run(ctx):
         return scn
 
     stores = ['repo', 'dev']
+    # H. histories FIRST (nothing else has run in this process yet): several operations in a row on one
+    # Ipmi object and on objects created later, devices whose reservation counters restart or hand out
+    # small ids again, cancellations in the earlier operations, repositories sharing record ids.
+    hid = [0]
+
+    def small_store(n):
+        ids = rng.sample(range(1, 14), n)          # small id pool: repositories overlap
+        return [mk_record(rng, i, rng.choice([5, 9, 16, 21, 30, 47])).hex() for i in ids]
+
+    def hstep(conn, store, op, mine, limit, plan, resv='none', res0=None, rid=None):
+        st = {'repo': mine if store == 'repo' else [], 'dev': mine if store == 'dev' else [], 'limit': limit,
+              'plan': plan, 'op': op, 'store': store, 'resv': resv, 'conn': 'h%d-%s' % (hid[0], conn)}
+        if res0 is not None:
+            st['res0'] = res0
+        if op == 'get':
+            rec = bytes.fromhex(mine[rid])
+            st['rid'] = rec[0] | rec[1] << 8
+        return st
+
+    def cancel_plan(maxidx):
+        return [('none',)] * rng.randrange(1, maxidx) + [('cancel',)]
+    for rep in range(10 if q else 60):
+        # listings: same object twice, then another repository through the same and through a new object
+        hid[0] += 1
+        store = stores[rep % 2]
+        a, b = small_store(rng.randrange(2, 6)), small_store(rng.randrange(2, 6))
+        lim = rng.choice([255, 16, 20])
+        steps = [hstep(0, store, 'list', a, lim, []),
+                 hstep(0, store, 'list', a, lim, cancel_plan(6) if rep % 3 == 0 else []),
+                 hstep(rng.choice([0, 1]), store, 'list', b, lim, []),
+                 hstep(1, stores[(rep + 1) % 2], 'list', a, lim, []),
+                 hstep(2, store, 'list', b, lim, cancel_plan(5) if rep % 2 else [])]
+        history(steps[:rng.randrange(2, 6)], 'history listings')
+    for rep in range(24 if q else 150):
+        # reads: a cancelled + renewed reservation in an earlier read, then reads whose reservation has the
+        # same numeric value again (counter restarted / small ids), same object and a later object
+        hid[0] += 1
+        store = stores[rep % 2]
+        mine = small_store(3)
+        res0 = rng.choice([None, {'repo': 0, 'dev': 0}, {'repo': 0, 'dev': 7}, {'repo': 65534, 'dev': 65534}])
+        resv = rng.choice(['none', 'none', 'valid'])
+        lim = rng.choice([255, 20, 16, 8])
+        steps = [hstep(0, store, 'get', mine, lim, cancel_plan(4), resv, res0, rid=rng.randrange(3)),
+                 hstep(0, store, 'get', mine, lim, [], resv, res0, rid=rng.randrange(3)),
+                 hstep(0, store, rng.choice(['get', 'list']), mine, lim, [], 'none', res0, rid=rng.randrange(3)),
+                 hstep(1, store, 'get', mine, lim, cancel_plan(4) if rep % 2 else [], resv, res0, rid=rng.randrange(3)),
+                 hstep(0, store, 'get', mine, lim, [], rng.choice(['none', 'valid']), res0, rid=rng.randrange(3))]
+        history(steps[:rng.randrange(2, 6)], 'history reads')
     # A. every length x every limit, no faults (single reads inside a 3-record store)
     n = 0
     for ln in LENGTHS + [rng.randrange(5, 261) for _ in range(3 if q else 30)]:
@@ -400,7 +570,9 @@ def run(ctx):
                 'with up to 4 faults incl. other codes; lists of 1..12 (thorough ..60) records with a cancellation / code at '
                 'request indices; absent record, empty store; both stores; with/without caller reservation (valid, stale). '
                 'Compared per case: every request, every sleep, outcome (model replayed in Coq on the recorded replies) and '
-                'the Gallina device on the recorded requests. distinct = distinct (operation, store, id, limit, plan, records); '
+                'the Gallina device on the recorded requests. History stage (run first): listings and reads in a row on one '
+                'Ipmi object and on later created objects against fresh devices with restarting / small reservation counters, '
+                'each step compared with the stateless model and judged (exact, complete, reservation carried, same store). distinct = distinct (operation, store, id, limit, plan, records); '
                 'non-trivial = more than 3 exchanges')
     res.samples = [{'case': meta[i], 'term': terms[i][:600]} for i in (0, len(terms) // 3, len(terms) // 2, len(terms) - 1)]
     res.oracle_failures = list(fails.values())
